@@ -21,6 +21,7 @@ Emits(rr) ==
                          /\ (rr[1] = rr[2] => EmitCase("law.tensor_unit", P, [f |-> Pack(rr[1])]) /\ EmitCase("strict.tensor_bitor", P, [f |-> Pack(rr[1]), g |-> Pack(rr[2])]))
     [] kind = "striple" -> EmitCase("law.tensor_assoc", P, [f |-> Pack(rr[1]), g |-> Pack(rr[2]), h |-> Pack(rr[3])])
     [] kind = "lpair" -> EmitCase("lax.tensor", P, [f |-> rr[1], g |-> rr[2]])
+                         /\ EmitCase("lax.tensor_assign", P, [pre |-> rr[1], g |-> rr[2]])     \* the in-place entry point
                          /\ (rr[1] = rr[2] => EmitCase("lax.tensor_bitor", P, [f |-> rr[1], g |-> rr[2]]))
     [] kind = "ltriple" -> EmitCase("lax.tensor3", P, [f |-> rr[1], g |-> rr[2], h |-> rr[3]])
 Load == /\ stage >= 1 /\ stage <= Depth /\ kind' = kind
